@@ -134,3 +134,15 @@ Proof.
   cbn zeta. do 9 eexists. split; [vm_compute; reflexivity|]. split; [vm_compute; reflexivity|].
   split; [vm_compute; reflexivity|]. repeat split; reflexivity.
 Qed.
+
+(* a patch written with 16-bit glyph ids and read with the 24-bit flag of ANOTHER patch of the group is
+   mis-parsed (other glyph ids / other tables) or rejected — the per-patch flag matters *)
+Example c18_wrong_id_width_misparses :
+  let p := gp_encode false [1; 2] [T_glyf] [25; 27; 28] [7; 8; 9] in
+  (exists v, gp_read p false = inr v /\ gp_gids v = [1; 2] /\ gp_items v T_glyf = inr [(1, [7; 8]); (2, [9])]) /\
+  (forall v, gp_read p true = inr v -> gp_gids v <> [1; 2]).
+Proof.
+  cbn zeta. split.
+  - eexists. split; [vm_compute; reflexivity|]. split; vm_compute; reflexivity.
+  - intros v H. vm_compute in H. inversion H; subst. cbn. discriminate.
+Qed.
